@@ -385,6 +385,12 @@ fn siblings<A: Backend, B: Backend>(opts: &Opts, rep: &mut Report) {
 
 pub fn run(opts: &Opts) {
     let mut rep = Report::new("C07");
+    if opts.part.as_deref() == Some("kemzeros") {
+        crate::monitors::c05::kem_leading_zeros::<V1>(opts, &mut rep, "C07");
+        rep.set("rule", json!("k1.seal with the library's 512-byte random draw forced (LD_PRELOAD feed) to stored values whose RSA-KEM ciphertext starts with 1, 2 or 3 zero bytes: fixed blob length, unsealed by the library and by the reference"));
+        rep.finish(opts);
+        return;
+    }
     use crate::prims::Rc;
     #[cfg(feature = "ffi")]
     {
